@@ -170,6 +170,117 @@ def _pop_depth_guard(body):
     return worst
 
 
+_ALIAS_METHODS = ("clone", "to_owned", "to_path_buf", "as_path", "as_ref", "borrow", "deref", "into", "as_deref")
+_FS_WRITERS = ("std::fs::write", "std::fs::File::create", "std::fs::OpenOptions::open")
+
+
+def _param_feeding(P, g, target_pred, depth=0):
+    """indices of the parameters of g from which an argument of a call satisfying target_pred derives (one level of helpers)"""
+    pv = Prov(g)
+    names = [pv.params.get(b.get("local")) if b.get("k") == "Binding" else None for b in g.params]
+    out = set()
+    for c in g.walk():
+        if c.get("k") not in ("Call", "MethodCall"):
+            continue
+        which = target_pred(c)
+        if which is None:
+            continue
+        args = ([c["recv"]] if c.get("k") == "MethodCall" else []) + c.get("args", [])
+        if which < len(args):
+            a = pv.atoms(args[which])
+            for i, nm in enumerate(names):
+                # only parameters that can carry a path (a flag that merely decides whether the call happens is not a source of it)
+                if nm is not None and ("param", nm) in a and "Path" in str(g.params[i].get("t", "")):
+                    out.add(i)
+    return out
+
+
+def _specifier_for_written_file(P, R, relative, spec_fns):
+    cli = [f for f in P.fns.values() if f.path.startswith("nitrogql_cli::") and f.kind in ("Fn", "AssocFn") and not f.derived and "::tests" not in f.path]
+    # writers: functions of the CLI that create/write a file at a path taken from a parameter
+    writers = {}
+    for g in cli:
+        idx = _param_feeding(P, g, lambda c: 0 if norm(call_name(c) or "") in _FS_WRITERS else None)
+        if idx:
+            writers[g.path] = idx
+    # specifier functions: which parameter is the `from` of relative_path
+    froms = {}
+    for gp in spec_fns:
+        g = P.fns.get(gp)
+        if g is None or gp == relative.path:
+            continue
+        idx = _param_feeding(P, g, lambda c: 0 if call_name(c) == relative.path else None)
+        if idx:
+            froms[gp] = idx
+    if not writers or not froms:
+        R.undecided("R20-d", "specifier-for-written-file", "no file writer taking a path parameter (%d) or no specifier function (%d) found in the CLI"
+                    % (len(writers), len(froms)), loc=None)
+        return
+    n = 0
+    for f in cli:
+        nodes = f.nodes()
+        spec_calls = [(i, x) for i, (x, _) in enumerate(nodes) if x.get("k") == "Call" and call_name(x) in froms and call_name(x) != f.path]
+        write_calls = [(i, x) for i, (x, _) in enumerate(nodes) if x.get("k") == "Call" and call_name(x) in writers and call_name(x) != f.path]
+        if not spec_calls or not write_calls:
+            continue
+        pv = Prov(f)
+
+        def loop_of(i):
+            p = nodes[i][1]
+            while p >= 0:
+                if nodes[p][0].get("k") == "Loop":
+                    return p
+                p = nodes[p][1]
+            return -1
+
+        def derives(a, b, seen=None):
+            """is local a computed from local b through something other than an alias? -> 'alias' | 'computed' | None"""
+            seen = seen if seen is not None else set()
+            if a == b:
+                return "alias"
+            if a in seen:
+                return None
+            seen.add(a)
+            best = None
+            for src, _ in pv.src.get(a, []):
+                if src is None:
+                    continue
+                locs = {y["local"] for y in subnodes(src) if y.get("k") == "Path" and "local" in y}
+                calls = [y for y in subnodes(src) if y.get("k") in ("Call", "MethodCall")
+                         and not (y.get("k") == "MethodCall" and y.get("method") in _ALIAS_METHODS)]
+                for l in locs:
+                    r = derives(l, b, seen)
+                    if r is not None:
+                        r = "computed" if (calls or r == "computed") else "alias"
+                        best = "computed" if "computed" in (best, r) else r
+            return best
+
+        for si, sc in spec_calls:
+            for wi, wc in write_calls:
+                if loop_of(si) != loop_of(wi):
+                    continue
+                for fi in froms[call_name(sc)]:
+                    for pi in writers[call_name(wc)]:
+                        if fi >= len(sc["args"]) or pi >= len(wc["args"]):
+                            continue
+                        ls, lw = _root_local(sc["args"][fi]), _root_local(wc["args"][pi])
+                        if ls is None or lw is None:
+                            continue
+                        rel = derives(lw, ls) or derives(ls, lw)
+                        if rel is None:
+                            continue        # unrelated outputs (the schema file and an operation's declaration file, say)
+                        n += 1
+                        key = "specifier-for-written-file:%s" % short(f.path)
+                        if rel == "alias":
+                            R.holds("R20-d", key, "the import specifier is computed for the path the file is written to", loc=f.loc())
+                        else:
+                            R.violated("R20-d", key, "%s computes the schema import specifier for one path and writes the file to a path computed "
+                                       "from it (a relocation applied after the specifier was taken, or before it on one side only): the relative "
+                                       "import in the written file points at the wrong place" % f.path, loc=f.loc())
+    if n == 0:
+        R.undecided("R20-d", "specifier-for-written-file", "no specifier call and write call over related paths found in one function", loc=None)
+
+
 def _vec_ops(body):
     """methods applied to a Vec receiver below `body`"""
     ops = []
@@ -949,6 +1060,9 @@ def r20d(P, R):
                            "computed for another file (another directory)" % (f.path, bad[0]), loc=f.loc())
             else:
                 R.holds("R20-d", key, "inside the loop over files the specifier is computed for every file")
+    # ---- the specifier is computed for the file that is written: the `from` handed to a specifier function and the path handed to
+    # the writer of that output are the same value (a relocation applied to one of them only sends the import to the wrong place)
+    _specifier_for_written_file(P, R, relative, spec_fns)
     # ---- the extension table
     tbl = _ext_table(P)
     if tbl is None:
